@@ -2,10 +2,12 @@
    the library function it relies on, posixpath.normpath.  Definitions only.
    Paths are lists of code points (Z); '/' = 47, '.' = 46.  The win32 branch of canonicalize
    (backslash replacement) is outside the model. *)
-From PV Require Import Bytes.
+From PV Require Import Bytes C34_gen.
 Open Scope Z_scope.
 
-Definition SLASH : Z := 47.
+(* the separator literal of canonicalize, regenerated from paramiko/sftp_si.py on every run (Gen/C34_gen.v);
+   gen/c34.py also pins by AST the shape of canonicalize that this file mirrors *)
+Definition SLASH : Z := G_SEP.
 Definition DOT : Z := 46.
 Definition comp := list Z.
 
